@@ -310,8 +310,7 @@ def members_clipped_on_decoration(ctx):
     for a, what in ((AS + '._clipGuessWithinRangeBoundary', 'clip(x0, _strictMin, _strictMax); at=False redraws the out-of-box coordinates uniformly inside (min, max)'),
                     ('mystic.scipy_optimize:NelderMeadSimplexSolver._setSimplexWithinRangeBoundary', 'simplex built around x0 and cropped: val<lo -> lo, val>hi -> hi with lo=_strictMin, hi=_strictMax')):
         g = ctx.func(a)
-        got = SB.summary(g.node, strict_casts=True)
-        want = SB.summary_of_source(REFS[a], strict_casts=True)
+        got, want = SB.agree(g.node, REFS[a], strict_casts=True)
         ctx.stats['terms_compared'] += len(got)
         ctx.check(got == want, g.qualname.split('.')[-1], what, '%s differs from its confirmed behaviour: %s' % (g.qualname, SB.diff(got, want)), g, g.node)
 
@@ -323,8 +322,7 @@ def random_points_inside_limits(ctx):
     for a, what in ((AS + '.SetRandomInitialPoints', 'population[i][j] = uniform(min[j], max[j]), all members x all dimensions'),
                     (AS + '.SetInitialPoints', 'brackets x0*(1-r), x0*(1+r), draws inside, pins member 0 to x0')):
         g = ctx.func(a)
-        got = SB.summary(g.node, strict_casts=True)
-        want = SB.summary_of_source(REFS[a], strict_casts=True)
+        got, want = SB.agree(g.node, REFS[a], strict_casts=True)
         ctx.stats['terms_compared'] += len(got)
         ctx.check(got == want, g.qualname.split('.')[-1], what, '%s differs from its confirmed behaviour: %s' % (g.qualname, SB.diff(got, want)), g, g.node)
 
